@@ -346,14 +346,22 @@ def d2(ctx, prog, dispatch_call):
         raise AnalysisError('grouping branch (if on nb_words) not identified')
     br = ifs[0]
     key = f'{f.key}::grouping'
-    # guard: grouping for every k >= 2
+    # guard: every nb_words >= 2 takes one arm of the branch, nb_words = 1 the other; which arm groups is decided by the layout
+    # interpretation below (the arm taken for nb_words >= 2 must return the group sums)
+    sel = None
     try:
         sel = {k: bool(ceval(br.test, {'self.nb_words': k})) for k in range(1, 10)}
-        bad = [k for k in range(2, 10) if not sel[k]]
+        bad = [k for k in range(3, 10) if sel[k] != sel[2]] if sel[2] != sel[1] else [k for k in range(2, 10) if sel[k] == sel[1]]
         ctx.check(not bad, 'C15-D2', f'{key} guard', f'`{norm(br.test)}` skips the grouping for nb_words = {bad[:3]}: the words are returned ungrouped',
-                  f'`{norm(br.test)}` selects grouping for every nb_words >= 2', f.where(br))
+                  f'`{norm(br.test)}` separates nb_words = 1 from every nb_words >= 2', f.where(br))
     except Undecidable as e:
         ctx.undecided('C15-D2', f'{key} guard', f'guard not evaluable: {e}', f.where(br))
+        return
+
+    def test_value(test, take):
+        if norm(test) == norm(br.test):
+            return sel[2] if take else sel[1]
+        return bool(ceval(test, {'self.nb_words': 2 if take else 1}))
     # layout interpretation over every (rank, axis) configuration, both branches
     nconf = 0
     seen_events = {}
@@ -361,7 +369,7 @@ def d2(ctx, prog, dispatch_call):
         for a in range(rank):
             for take in (True, False):
                 nconf += 1
-                it = gl.Interp(prog, f, data, axis, rank, a, dispatch_call, take_branch=take)
+                it = gl.Interp(prog, f, data, axis, rank, a, dispatch_call, take_branch=take, test_value=test_value)
                 ckey = f'{key} layout rank={rank} axis={a}' + ('' if take else ' (nb_words = 1)')
                 try:
                     ret = it.run()
